@@ -349,4 +349,67 @@ theorem inBox_getD_lt (shape idx : List Nat) (a : Nat) (ha : a < shape.length) (
       | zero => simpa using h.1
       | succ a => simp only [List.getD_cons_succ]; exact ih is a (by simpa using ha) h.2
 
+/-! ### assignment through index arrays -/
+
+@[simp] theorem setAt_length {α : Type} (l : List α) (k : Nat) (v : α) : (setAt l k v).length = l.length := by
+  induction l generalizing k with
+  | nil => rfl
+  | cons x xs ih => cases k <;> simp [setAt, ih]
+
+theorem getD_setAt_self {α : Type} (l : List α) (k : Nat) (v d : α) (hk : k < l.length) :
+    (setAt l k v).getD k d = v := by
+  induction l generalizing k with
+  | nil => simp at hk
+  | cons x xs ih =>
+    cases k with
+    | zero => simp [setAt]
+    | succ k => simp only [setAt, List.getD_cons_succ]; exact ih k (by simpa using hk)
+
+theorem getD_setAt_ne {α : Type} (l : List α) (k j : Nat) (v d : α) (h : j ≠ k) :
+    (setAt l k v).getD j d = l.getD j d := by
+  induction l generalizing k j with
+  | nil => rfl
+  | cons x xs ih =>
+    cases k with
+    | zero =>
+      cases j with
+      | zero => exact absurd rfl h
+      | succ j => simp [setAt]
+    | succ k =>
+      cases j with
+      | zero => simp [setAt]
+      | succ j => simp only [setAt, List.getD_cons_succ]; exact ih k j (by omega)
+
+@[simp] theorem scatterN_length {α : Type} (tbl : List α) (κ : Nat → Nat) (ν : Nat → α) (n : Nat) :
+    (scatterN tbl κ ν n).length = tbl.length := by
+  induction n with
+  | zero => rfl
+  | succ n ih => simp [scatterN, ih]
+
+/-- an entry whose index is not among the keys keeps its value -/
+theorem scatterN_miss {α : Type} (tbl : List α) (κ : Nat → Nat) (ν : Nat → α) (n j : Nat) (d : α)
+    (h : ∀ i, i < n → κ i ≠ j) : (scatterN tbl κ ν n).getD j d = tbl.getD j d := by
+  induction n with
+  | zero => rfl
+  | succ n ih =>
+    simp only [scatterN]
+    rw [getD_setAt_ne _ _ _ _ _ (fun e => h n (by omega) e.symm)]
+    exact ih fun i hi => h i (by omega)
+
+/-- with pairwise distinct in-range keys, entry `κ i` receives `ν i` -/
+theorem scatterN_hit {α : Type} (tbl : List α) (κ : Nat → Nat) (ν : Nat → α) (n i : Nat) (d : α)
+    (hinj : ∀ i i', i < n → i' < n → κ i = κ i' → i = i') (hr : ∀ i, i < n → κ i < tbl.length) (hi : i < n) :
+    (scatterN tbl κ ν n).getD (κ i) d = ν i := by
+  induction n with
+  | zero => omega
+  | succ n ih =>
+    simp only [scatterN]
+    rcases Nat.lt_or_ge i n with h1 | h1
+    · have hne : κ i ≠ κ n := fun e => by have := hinj i n (by omega) (by omega) e; omega
+      rw [getD_setAt_ne _ _ _ _ _ hne]
+      exact ih (fun a b ha hb => hinj a b (by omega) (by omega)) (fun a ha => hr a (by omega)) h1
+    · have : i = n := by omega
+      subst this
+      exact getD_setAt_self _ _ _ _ (by rw [scatterN_length]; exact hr i (by omega))
+
 end Darsia
